@@ -81,7 +81,9 @@ def formula_strategy(max_depth=4):
         def ext(sub):
             return st.one_of(
                 st.builds(nary, st.sampled_from(NARY), st.lists(sub, min_size=2, max_size=4)),
+                st.builds(nary, st.sampled_from(NARY), st.lists(sub, min_size=2, max_size=3)),
                 st.builds(nary, st.sampled_from(("and", "or", "xor")), st.lists(sub, min_size=2, max_size=3)),
+                st.builds(nary, st.sampled_from(("and", "or", "xor")), st.lists(sub, min_size=3, max_size=4)),
                 sub.map(lambda f: ["not", f]))
         f = leaf
         levels = [leaf]
@@ -199,7 +201,7 @@ class C28(Check):
     assumptions = ["symbols range over real (rational) values only; relationals on non-real values are outside the property",
                    "a constructor that throws declines the formula",
                    "a piecewise none of whose conditions holds has no documented value: not judged"]
-    tiers = {"quick": {"examples": 6000}, "thorough": {"examples": 500000}}
+    tiers = {"quick": {"examples": 5000}, "thorough": {"examples": 300000}}
 
     def enumerate(self, tier):
         """all formulas op(l1, l2[, l3]) over literals of two atoms a, b (a, ~a, complementary form) for every
